@@ -240,11 +240,15 @@ func runScenario(w *vt.Writer, t *Target, sp scenarioSpec, hit map[string]bool) 
 				}
 			})
 		case "use":
-			for _, u := range t.Use {
+			// the calls of a step start at a different one in different scenarios, so that a finding at one
+			// call site (the rest of a scenario is not judged after a mismatch) never hides another site
+			for x := range t.Use {
+				u := t.Use[(x+sp.Rot+k)%len(t.Use)]
 				sc.call("use", func(c *Call) { u(c, sc.obj) })
 			}
 		case "acc":
-			for _, a := range t.Acc {
+			for x := range t.Acc {
+				a := t.Acc[(x+sp.Rot+k)%len(t.Acc)]
 				sc.call("acc", func(c *Call) { a(c, sc.obj) })
 			}
 		case "scr":
